@@ -163,14 +163,25 @@ class Guarded(Contract):
                 for exitkind in ("return", "Exception", "BaseException", "SystemExit", "KeyboardInterrupt"):
                     out.append(dict(outer=outer, ie0=ie0, exit=exitkind, bits=2,
                                     **({} if exitkind == "return" else {"raises_only": True})))
+                # a PLAIN true condition (an int 1, a bool True: e.g. a comparison of public values) installs no guard
+                # of its own, but the region still ends: whatever the body left behind is undone all the same
+                for cond in ("int", "true"):
+                    for exitkind in ("return", "Exception"):
+                        out.append(dict(outer=outer, ie0=ie0, exit=exitkind, bits=2, cond=cond,
+                                        **({} if exitkind == "return" else {"raises_only": True})))
         return out
 
     def setup(self, c, cfg):
         rt = c.rt
         rt.bitlength = cfg["bits"]
         _outer_states(c, cfg["outer"], cfg["ie0"])
-        cond = c.operand("cond")
-        cur().assume(is01(term(cond.value)))
+        if cfg.get("cond") == "int":
+            cond = 1
+        elif cfg.get("cond") == "true":
+            cond = True
+        else:
+            cond = c.operand("cond")
+            cur().assume(is01(term(cond.value)))
         ret = object()
         self._ret = ret
         exitkind = cfg["exit"]
@@ -208,3 +219,38 @@ class Guarded(Contract):
 
     def post_exc(self, c, e_, *a, **k):
         return {"F.state_restored": _same_state(c.entry, c.now)}
+
+
+@register
+class IgnoreErrors(Contract):
+    """ignore_errors(val=None): the switch of the run-time checks.  Called with True or False it sets the flag to
+    exactly that value (also back to False) and returns it; called without argument it only reports the flag.
+    Guard and constant one are not touched."""
+    name = "pysnark.runtime:ignore_errors"
+    assigns = ("pysnark.runtime:_ignore_errors",)
+    vprops = MODE_STATE_PROPS
+    fprops = MODE_STATE_PROPS
+    facets = "VRFTNK"
+    cprops = sprops = eprops = tprops = ()
+    guard_relevant = False
+    modules = ("pysnark.runtime", "pysnark.boolean")
+
+    def configs(self, tier):
+        return [dict(outer=o, ie0=i, arg=a) for o in ("none", "guarded") for i in (False, True) for a in ("none", "true", "false", "omitted")]
+
+    def setup(self, c, cfg):
+        _outer_states(c, cfg["outer"], cfg["ie0"])
+        a = cfg["arg"]
+        if a == "omitted":
+            return c.rt.ignore_errors, (), {}
+        return c.rt.ignore_errors, ({"none": None, "true": True, "false": False}[a],), {}
+
+    def use_stub(self, c, *a):
+        return False
+
+    def post(self, c, r, *a):
+        e, now = c.entry, c.now
+        want = formula(e["ie"]) if (not a or a[0] is None) else z3.BoolVal(bool(a[0]))
+        return {"F.flag": formula(now["ie"]) == want,
+                "V.returns_flag": formula(r) == want,
+                "F.guard_and_one_untouched": now["guard"] is e["guard"] and now["ONE"] is e["ONE"]}
